@@ -24,6 +24,8 @@ pub enum ByzLeader {
     /// equivocates in the last slot of its window: version A to the next leader, version B to the rest
     TwoBlocksLastSlot,
     Late,
+    /// one block per slot, the first of them built on an older block than the tip (bypassing the latest block)
+    OldParent,
     /// directed: two blocks in the window's first slot, version A to `RunCfg::rival`'s X group and version B
     /// to its Y group, nothing afterwards (the rest of the window is skipped)
     RivalSplit,
@@ -67,6 +69,9 @@ pub struct RunCfg {
     pub force_byz_mode: Option<ByzVote>,
     /// see `SchedState::slow_diss`
     pub slow_diss: Option<usize>,
+    /// directed: crash this (correct) leader shortly after votes for the first slot of this window appear,
+    /// so that its window consists of one certified block followed by skipped slots
+    pub crash_after_first_block: Option<(usize, u64)>,
     pub label: String,
 }
 
@@ -174,6 +179,7 @@ pub async fn execute(cfg: &RunCfg, rng: &mut SRng) -> RunOut {
     let step = Duration::from_millis(10);
     let mut now = Duration::ZERO;
     let mut crashes = cfg.crashes.clone();
+    let mut dyn_crash_at: Option<Duration> = None;
     let mut tx_acc = 0f64;
     let mut max_slot_seen = 0u64;
     let mut hostile_sent: BTreeMap<String, u64> = BTreeMap::new();
@@ -191,6 +197,17 @@ pub async fn execute(cfg: &RunCfg, rng: &mut SRng) -> RunOut {
                 true
             }
         });
+        if let Some((v, w)) = cfg.crash_after_first_block {
+            if !cl.crashed.contains(&v) && dyn_crash_at.is_none() {
+                let seen = { cl.log.lock().unwrap().votes_sent.iter().any(|x| x.2.slot == w * 4 && x.2.kind == VK::Notar) };
+                if seen {
+                    dyn_crash_at = Some(now + Duration::from_millis(120));
+                }
+            }
+            if dyn_crash_at.is_some_and(|t| t <= now) && !cl.crashed.contains(&v) {
+                cl.crash(v);
+            }
+        }
         // client transactions
         if cfg.tx_rate > 0 {
             tx_acc += cfg.tx_rate as f64 * step.as_secs_f64();
@@ -231,7 +248,13 @@ pub async fn execute(cfg: &RunCfg, rng: &mut SRng) -> RunOut {
             let trigger = max_slot_seen % 4 == 3;
             if cfg.byz.contains(&leader) && trigger && led_windows.insert(w) && cfg.byz_leader != ByzLeader::Silent {
                 // parent: the most recent block seen in honest votes
-                let parent: Bid = byz.seen_blocks.iter().filter(|b| b.0 < w * 4).max_by_key(|b| b.0).copied().unwrap_or((0, [0; 32]));
+                let mut parent: Bid = byz.seen_blocks.iter().filter(|b| b.0 < w * 4).max_by_key(|b| b.0).copied().unwrap_or((0, [0; 32]));
+                if cfg.byz_leader == ByzLeader::OldParent {
+                    // bypass the tip: the most recent block of an earlier slot than the tip's
+                    if let Some(older) = byz.seen_blocks.iter().filter(|b| b.0 < parent.0).max_by_key(|b| b.0).copied() {
+                        parent = older;
+                    }
+                }
                 let targets = cl.correct();
                 let mut par = parent;
                 let base = now + Duration::from_millis(if cfg.byz_leader == ByzLeader::Late { 1200 } else { 60 });
